@@ -13,9 +13,6 @@ sys.path.insert(0, VERIF)
 ALL = ['C%02d' % i for i in range(1, 21)]
 
 NOT_APPLICABLE = {
-    'C14': 'equality of two implementations up to rounding needs expression '
-           'equivalence (solver or execution); syntactic normal forms would '
-           'raise alarms on equivalent rewrites (DESIGN 0)',
 }
 
 ENGINE_NOT_BUILT = ('engine not built yet (DESIGN section 7); no weaker '
